@@ -54,6 +54,8 @@ class C04Monitor(Monitor):
             except ValueError:
                 return
             ref = calcs.reference_energy(w.calc_spec, w.atoms)
+            if not np.isfinite(ref) or getattr(self, "nonfinite", False):
+                return
             w.result.count("probe.logged_energy_checked")
             if not _close(reported, ref):
                 self.violate(w, "reported_energy_wrong", f"driver={w.sc['driver']}|calc={w.calc_spec['style']}|via=logger",
@@ -74,6 +76,13 @@ class C04Monitor(Monitor):
         style = w.calc_spec["style"]
         ctx = w.mc.context
         ref = calcs.reference_energy(w.calc_spec, w.atoms)
+        if not np.isfinite(ref) or getattr(self, "nonfinite", False):
+            # an integrator blow-up on a hard core (then force-accepted by the tape) leaves NaN energies: the
+            # statement is about finite energies; nothing in this run is judged from here on
+            if not getattr(self, "nonfinite", False):
+                w.result.count("probe.nonfinite_energy_runs")
+            self.nonfinite = True
+            return
         kind = w.move_kind(name)
         w.result.cover.add(f"{w.sc['driver']}|{kind}|{verdict}|{style}")
         c = self._ctx(w, name, verdict)
